@@ -50,7 +50,10 @@ def scratch_attrs(ctx: Ctx) -> Set[str]:
         if roles.fq(m.func) in reach and m.kind in ('attr',) and not m.init_self and isinstance(m.field, str):
             if any(o.cls is not None and o.cls.is_subclass_of(ev) for o in m.bases):
                 out.add(m.field)
-    return out
+    # lazily cached derived attributes are not scratch: they hold a function of the configuration (R17.6 decides
+    # that they are invalidated whenever the configuration changes)
+    from . import caches
+    return out - set(caches.lazy_caches(ctx, ev))
 
 
 def r17_1_2_5(ctx: Ctx):
@@ -111,6 +114,8 @@ def r17_1_2_5(ctx: Ctx):
                       'local)')
     ctx.rule(rid, 'configuration attributes are written only by the constructor and SetBounds')
     scr = scratch_attrs(ctx)
+    from . import caches as _caches
+    lazy = set(_caches.lazy_caches(ctx, ev))
     ctx.analysed['scratch_attributes'] = sorted(scr)
     allowed_writers = {roles.fq(ev.methods[m]) for m in ('__init__', 'SetBounds') if m in ev.methods}
     qreach = pta.reachable(qs)
@@ -138,8 +143,8 @@ def r17_1_2_5(ctx: Ctx):
         if not any(o.cls is not None and o.cls.is_subclass_of(ev) for o in m.bases):
             continue
         q = roles.fq(m.func)
-        if m.field in scr:
-            continue
+        if m.field in scr or m.field in lazy:
+            continue          # scratch (R17.3) / lazily cached derived attribute (R17.6)
         if q in allowed_writers:
             continue
         ctx.fail(rid, m.func.short, m.loc(), f'configuration attribute {m.field} of the evolvent is written outside '
@@ -291,7 +296,23 @@ def r17_3(ctx: Ctx):
                 ctx.ok(rid, e.func.short, f'{a} := {name}(...) with a pinned float dtype', e.loc())
 
 
+def r17_6(ctx: Ctx):
+    rid = 'R17.6'
+    ctx.rule(rid, 'derived attributes computed lazily by the queries are functions of the configuration only: every '
+                  'routine that changes an attribute they depend on invalidates or recomputes them')
+    from . import caches
+    ev = evolvent(ctx)
+    n = caches.report_incoherent(ctx, rid, ev, None,
+                                 'a later query answers from the stale value if an earlier query had filled it, and '
+                                 'from the new configuration otherwise - the result depends on the query history')
+    ctx.analysed['lazy_caches'] = sorted(caches.lazy_caches(ctx, ev))
+    if n == 0:
+        ctx.ok(rid, 'Evolvent', 'no lazily cached derived attribute exists', ev.module.relpath)
+
+
 def check(ctx: Ctx):
+    if C.want(ctx, 'R17.6'):
+        r17_6(ctx)
     if any(C.want(ctx, r) for r in ('R17.1', 'R17.2', 'R17.4', 'R17.5')):
         r17_1_2_5(ctx)
     if C.want(ctx, 'R17.3'):
